@@ -570,7 +570,13 @@ func Run(tier, replay string) {
 			// merged or split, an entity processed twice or not at all). That is not by itself a breach
 			// of C12, but the model no longer describes this code: nothing this check says about
 			// processing orders can be believed until the model is brought up to date.
-			mbt.Infra("a hook trace of the real translator is not a behaviour of Translate.tla; last states:\n%s", mbt.Truncate(tail(t.Output, 3500), 3500))
+			if rep.Violations() > 0 {
+				// the run already has verdicts (e.g. accept/reject differing between repetitions, which also
+				// makes executions end where the model does not): report those; the trace cannot be used
+				rep.Note("a hook trace of the real translator is not a behaviour of Translate.tla (not judged: the run has violations)")
+			} else {
+				mbt.Infra("a hook trace of the real translator is not a behaviour of Translate.tla; last states:\n%s", mbt.Truncate(tail(t.Output, 3500), 3500))
+			}
 		} else {
 			rep.TracesValidated += traces
 		}
